@@ -616,6 +616,17 @@ def main(argv=None):
             with_syn = False          # must exit 1 and write nothing
         base = SR.random_super_input(rng, no, rng.randint(2, 3), rng.randint(1, 3), bool(ordered)) if with_syn else D.random_plain_input(rng, no, rng.randint(2, 3))
         d = random_named(rng, RC.documented_names(base))
+        if rng.random() < 0.35:
+            # leaves named <species>_<k> after a species OTHER than the declared one: the explicit leaf_object_species entry is what counts
+            sp = sorted(set(d["leafmap"].values()))
+            mp = {}
+            for k, l in enumerate(sorted(d["leafmap"])):
+                others = [x for x in sp if x != d["leafmap"][l]] or sp
+                mp[l] = f"{rng.choice(others)}_{k}"
+            d["ot"] = D._rename(H.totuple(d["ot"]), mp)
+            d["leafmap"] = {mp[l]: v for l, v in d["leafmap"].items()}
+            if d.get("leafsyn"):
+                d["leafsyn"] = {mp[l]: v for l, v in d["leafsyn"].items()}
         sup = SR.is_super(algo)
         full = rng.random() < 0.5
         sym = (SR.FULL5 if sup else ["spe", "dup", "hgt", "floss"]) if full else (SR.DHS if sup else ["dup", "hgt"])
